@@ -491,7 +491,12 @@ def _derivative_transformation_matrix(deriv_func_list: list, point: float, order
             f"functions {len(deriv_func_list)} provided."
         )
     # Calculate derivatives of transformation evaluated at the point
-    derivs_at_pt = np.array([dev(point) for dev in deriv_func_list], dtype=float)
+    # evaluate on a one-element array: several transformations only accept arrays
+    # (e.g. LinearInfiniteRTransform.deriv uses ``x.size``) and return arrays
+    point_arr = np.array([point], dtype=float)
+    derivs_at_pt = np.array(
+        [np.ravel(np.asarray(dev(point_arr), dtype=float))[0] for dev in deriv_func_list], dtype=float
+    )
     deriv_transf = np.zeros((order, order))
     for i in range(0, order):
         for j in range(0, i + 1):
